@@ -421,7 +421,18 @@ func (c *OpCase) RunLine(mode Mode, d Decisions) (line string, an *Analysis) {
 				nDen++
 			}
 		}
-		gs = append(gs, common.L("g", common.I(f.ID), common.QS(f.DS), opTypeAtom(f.OpType), common.L(rs...), common.B(sentByID[f.ID]), common.B(elig), common.B(planKeys[k] == 1)))
+		// the same fetch as the request it would be: operation type and root coordinates read off the
+		// upstream operation text, independent of FetchInfo
+		reqOp, reqRoots := "unknown", []string{"roots"}
+		if ot, roots, err := ReqRoots(c.Fx.Lab.Config.Super, f.Query); err == nil && f.Query != "" {
+			reqOp = ot
+			for _, r := range roots {
+				tf := r[0] + "." + r[1]
+				reqRoots = append(reqRoots, common.L("r", common.QS(r[0]), common.QS(r[1]), common.B(c.Fx.P[tf]), common.B(c.Fx.P[tf] && d[tf])))
+			}
+		}
+		gs = append(gs, common.L("g", common.I(f.ID), common.QS(f.DS), opTypeAtom(f.OpType), common.L(rs...), common.B(sentByID[f.ID]), common.B(elig), common.B(planKeys[k] == 1),
+			common.L("req", reqOp, common.L(reqRoots...))))
 		// held back by the rule of the property although another planned fetch depends on it
 		held := mode == Pre && len(f.Roots) > 0 && ((f.OpType == ast.OperationTypeQuery && nDen == len(f.Roots)) || (f.OpType != ast.OperationTypeQuery && nDen > 0))
 		if held {
